@@ -127,7 +127,7 @@ func (c *Ctx) RunDocs(fams []string, fn DocFn) {
 			wc := &h.Case{Family: "W6d"}
 			workload.W6Special(func(cs *h.Case) {
 				lit := string(cs.Input)
-				if intPartDigits(lit) > 800 {
+				if intPartDigits(lit) > 800 || expDigits(lit) >= 5 {
 					return
 				}
 				for wi, w := range [][2]string{{"[", "]"}, {`{"n":`, "}"}, {"[0.5,", ",-1e2]"}} {
@@ -271,6 +271,9 @@ var bait = []byte(`\udc00\udc00"5e5]}],"k":1}0123456789abcdef"]}` + "\x00\x00 \n
 // capacity then COMPLETES the token: seeded change C13r5-m1), otherwise with the generic bait.
 func withBait(d []byte) []byte {
 	lead := ""
+	if n := len(d); n > 0 && (d[n-1] >= '0' && d[n-1] <= '9' || d[n-1] == '-' || d[n-1] == '.' || d[n-1] == 'e' || d[n-1] == 'E' || d[n-1] == '+') {
+		lead = "1234567890123456789012," // an over-read EXTENDS a number (seeded change C05r7-m1)
+	}
 	for _, lit := range [...]string{"null", "true", "false"} {
 		for k := len(lit) - 1; k >= 1; k-- {
 			if len(d) >= k && string(d[len(d)-k:]) == lit[:k] {
